@@ -6,6 +6,7 @@ import (
 	"fmt"
 	"math/big"
 	"sync"
+	"sync/atomic"
 	"testing"
 
 	ige "github.com/xelaj/mtproto/internal/aes_ige"
@@ -59,23 +60,30 @@ func oracleOne(c Case) error {
 
 // guard hands a caller's buffer over as callers often hold it: a window of a larger array. Whatever the callee writes -
 // inside the window or into the spare capacity behind it - shows up in intact().
-type guard struct{ back, orig []byte }
+// The window starts 1..15 bytes into the array (a field of a received packet, a slice of a slice): its address is
+// word-aligned only now and then, as it is for real callers.
+type guard struct {
+	back, orig []byte
+	off        int
+}
+
+var guardSeq atomic.Int64
 
 func guarded(b []byte) ([]byte, *guard) {
-	g := &guard{back: make([]byte, len(b)+48), orig: b}
-	copy(g.back, b)
-	for i := len(b); i < len(g.back); i++ {
+	g := &guard{back: make([]byte, len(b)+64), orig: b, off: 1 + int(guardSeq.Add(1)%15)}
+	for i := range g.back {
 		g.back[i] = 0xa5
 	}
-	return g.back[:len(b)], g
+	copy(g.back[g.off:], b)
+	return g.back[g.off : g.off+len(b)], g
 }
 
 func (g *guard) intact() bool {
-	if !bytes.Equal(g.back[:len(g.orig)], g.orig) {
+	if !bytes.Equal(g.back[g.off:g.off+len(g.orig)], g.orig) {
 		return false
 	}
-	for _, x := range g.back[len(g.orig):] {
-		if x != 0xa5 {
+	for i, x := range g.back {
+		if (i < g.off || i >= g.off+len(g.orig)) && x != 0xa5 {
 			return false
 		}
 	}
